@@ -90,12 +90,23 @@ impl ser::Error for RecErr {
     }
 }
 
-pub struct Rec;
+pub struct Rec { pub hr: bool }
 pub struct SeqRec { kind: u8, name: String, idx: u32, vname: String, items: Vec<Ct> }
 pub struct FieldRec { name: String, idx: u32, vname: String, variant: bool, items: Vec<(String, Ct)> }
 
+thread_local! { static HR: std::cell::Cell<bool> = std::cell::Cell::new(false); }
+
+/// the call tree postcard sees (is_human_readable() = false)
 pub fn record<T: Serialize + ?Sized>(v: &T) -> Result<Ct, RecErr> {
-    v.serialize(Rec)
+    v.serialize(Rec { hr: HR.with(|h| h.get()) })
+}
+
+/// the call tree a human-readable serializer such as serde_json sees
+pub fn record_hr<T: Serialize + ?Sized>(v: &T) -> Result<Ct, RecErr> {
+    HR.with(|h| h.set(true));
+    let r = v.serialize(Rec { hr: true });
+    HR.with(|h| h.set(false));
+    r
 }
 
 impl ser::Serializer for Rec {
@@ -108,7 +119,7 @@ impl ser::Serializer for Rec {
     type SerializeMap = SeqRec;
     type SerializeStruct = FieldRec;
     type SerializeStructVariant = FieldRec;
-    fn is_human_readable(&self) -> bool { false }
+    fn is_human_readable(&self) -> bool { self.hr }
     fn serialize_bool(self, v: bool) -> Result<Ct, RecErr> { Ok(Ct::Bool(v)) }
     fn serialize_i8(self, v: i8) -> Result<Ct, RecErr> { Ok(Ct::I(8, v as i128)) }
     fn serialize_i16(self, v: i16) -> Result<Ct, RecErr> { Ok(Ct::I(16, v as i128)) }
